@@ -1,6 +1,7 @@
 import SimVerif.Props.C03
 import SimVerif.Tie.Epoch
 import SimVerif.Tie.AutoWaste
+import SimVerif.Tie.Gc
 /-!
 # C03 at source level
 
@@ -44,5 +45,28 @@ theorem C03_source_countdown_after_set (cfg : Cfg) (st : St) (p : Nat) :
       { collect cfg (setAutoWaste st p) with awCounter := p } := by
   rw [tie_aw_sort]
   simp [awStep, setAutoWaste]
+
+/-- **collection at source level** (`TrackerAPI::auto_waste` as generated, on the list store): a live track stays in the main
+store exactly when it is not expired, and what reaches the wasted store is what was there plus exactly the expired live tracks -/
+theorem C03_source_auto_waste (cfg : Cfg) (st : St) (hnd : (st.live.map (·.id)).Nodup) :
+    ∃ main wst, gc_auto_waste (findUsableM cfg) fetchTracksM addTrackG st st.live st.wasted = some (main, wst) ∧
+      (∀ t, t ∈ main ↔ (t ∈ st.live ∧ expired cfg st t = false)) ∧
+      (∀ t, t ∈ wst ↔ (t ∈ st.wasted ∨ (t ∈ st.live ∧ expired cfg st t = true))) := by
+  refine ⟨_, _, tie_gc_auto_waste cfg st hnd, ?_, ?_⟩
+  · intro t; simp [collect, List.mem_filter]
+  · intro t; simp [collect, List.mem_append, List.mem_filter]
+
+/-- **`wasted()` at source level**: it empties the wasted store and hands out only tracks that were already wasted or that were
+live and expired -/
+theorem C03_source_wasted (cfg : Cfg) (st : St) (hnd : (st.live.map (·.id)).Nodup)
+    (hndw : (((collect cfg st).wasted).map (·.id)).Nodup) (hexp : ∀ t ∈ (collect cfg st).wasted, expired cfg st t = true) :
+    ∃ main out, gc_wasted (findUsableM cfg) fetchTracksM addTrackG st st.live st.wasted = some ((main, []), out) ∧
+      (∀ t ∈ out, t ∈ st.wasted ∨ (t ∈ st.live ∧ expired cfg st t = true)) := by
+  refine ⟨_, _, tie_gc_wasted cfg st hnd hndw hexp, ?_⟩
+  intro t ht
+  simp only [wastedOp, collect, List.mem_append, List.mem_filter] at ht
+  rcases ht with ht | ⟨ht, he⟩
+  · exact Or.inl ht
+  · exact Or.inr ⟨ht, he⟩
 
 end SimVerif.C03
